@@ -674,6 +674,12 @@ LEVEL_TEXT = ("Proved in Lean 4 over an arbitrary field, about definitions REGEN
               "conj/length2/inverse, matrix() acts as q v q*, is orthogonal with det 1 and is multiplicative on unit quaternions; every "
               "branch of Matrix4::rotation() returns q or -q for the matrix of a unit quaternion q when its root is a non-zero square "
               "root, and over every ordered field the branch conditions guarantee that (rotation_correct_ordered); Vec3 cross/dot. "
+              "Euler angles: rotateX/Y/Z, rotate(int,T), rotateE and eulerAngles (both const char* wrappers) are regenerated with "
+              "cos/sin/asin/acos/atan2/PI as an abstract interface; for any such functions with the standard properties (TrigOK, shown "
+              "to hold for the real functions) and exact arithmetic, rotateE(eulerAngles(rotateE(r))) = rotateE(r) for EVERY angle "
+              "triple r, all 12 axis orders, moving and fixed frames, both away from the gimbal-lock threshold (general branch) and "
+              "exactly on the lock (degenerate branch); the entries fed to asin/atan2 are exactly sin b, cos b (sin a, cos a), "
+              "cos b (sin c, cos c). "
               "Proved about the hand-written transcription of solve_/solve/Matrix::inverse (tied to the code by the correspondence "
               "check): for every non-singular n x n system, every number of right-hand sides and EVERY pivot-selection function that "
               "returns a non-zero candidate when one exists, A*solve(A,b) = b; the code's search loop is such a function; the result is "
@@ -685,9 +691,11 @@ LEVEL_TEXT = ("Proved in Lean 4 over an arbitrary field, about definitions REGEN
               "long double references only.")
 LEVEL_NOTE = ("Trusted: Lean kernel; the expression translator tools/props/c20_translate.py; harness/c20.cpp (prime-field scalar class, long "
               "double references). NOT theorems (numeric validation by the correspondence harness only, because Lean's kernel has no IEEE "
-              "floats and the conversions use sqrt/asin/acos/atan2): all float/double residual bounds; axisAngle()/fromAxisAngle()/"
-              "rotate(axis,angle); eulerAngles()/rotateE() for the 12 axis orders in fixed and moving frames (tolerance 8*sqrt(eps) for "
-              "angle extraction, which is the conditioning of this algorithm next to gimbal lock; 64*eps for quaternion<->matrix). "
+              "floats): all float/double residual bounds; axisAngle()/fromAxisAngle()/rotate(axis,angle) (sqrt/acos; numeric only); "
+              "the behaviour of eulerAngles() strictly between the lock threshold and the exact lock (there the degenerate branch is an "
+              "approximation with error <= sqrt(2(1-lim)); validated numerically with tolerance 8*sqrt(eps), 64*eps for "
+              "quaternion<->matrix). The Euler theorems are about exact arithmetic with abstract trigonometric functions, the branch "
+              "threshold lim is a parameter (<= 1). "
               "The solve_ model is hand-written (K-tied), not regenerated; its inner jj-loop is modelled as the simultaneous row update "
               "it is equal to. Theorems assume field laws: they say nothing about rounding. Two defects were found and repaired in "
               "/repo (fix: commits ddac4e2 Matrix3 operator*, 59184ad eulerAngles near gimbal lock); witnesses in corpus/C20.")
